@@ -67,7 +67,8 @@ def requested_writers(run, F, E):
     table = {('R_', 'applyRequest'): {('R_', 'processTransitions'), ('R_', 'initialEnter'), ('R_', 'replayTransition'), ('RV_', 'replayEnter')}}
     who_may_call(run, F, E, 'C02.b', table)
     allowed = {('R_', 'applyRequest'), ('C_', 'deepEnter'), ('C_', 'deepChangeToRequested'), ('C_', 'deepLoadRequested'),
-               ('Registry', 'clear'), ('Registry', 'clearRequests'), ('R_', 'processTransitions'), ('R_', 'initialEnter')}
+               ('Registry', 'clear'), ('Registry', 'clearRequests'), ('R_', 'processTransitions'), ('R_', 'initialEnter'),
+               ('R_', 'replayTransition'), ('RV_', 'replayEnter')}
     for root_name in ('processRequest', 'initialEnter'):
         for root in F.find('R_', root_name):
             for g, _ in anchors.substitution_loops(F, E, root):
@@ -80,24 +81,12 @@ def requested_writers(run, F, E):
         if ('core', 'registry', 'requested') in direct or (fn.tkey == 'ffsm2::detail::Registry' and ('this', 'requested') in direct):
             ok = tk_short(fn) in allowed
             why = 'is an expected writer of registry.requested'
-            if not ok and anchors.is_internal_helper(F, fn):
-                # a non-public helper: fine when everything that can call it (transitively, through other helpers) is an expected writer
+            if not ok and (anchors.is_internal_helper(F, fn) or (fn.cls is None and (fn.qn or '').startswith('ffsm2::detail::'))):
+                # a non-public helper (or a free function of namespace detail): fine when everything that can call it (transitively, through other helpers) is an expected writer
                 offenders = anchors.reached_only_from(F, E, fn, allowed)
                 ok = not offenders and bool(E.callers().get(fn.id))
                 why = 'is a non-public helper reached only from the expected writers of registry.requested'
             run.ob('C02.b', '%s %s' % (fn.short, why), ok, where=fn.pat, key='%s writes registry.requested' % fn.short)
-    # in the loops the request handed to applyRequest is the outstanding one
-    for root_name in ('processRequest', 'initialEnter'):
-        for root in F.find('R_', root_name):
-            for fn, st in anchors.substitution_loops(F, E, root):
-                for t in ir.walk_stmts(st.get('body')):
-                    for e0 in ir.stmt_exprs(t):
-                        for x in ir.walk(e0):
-                            if x['k'] == 'call' and x.get('m') == 'applyRequest':
-                                a = x['args'][1]
-                                ok = E.lv(a, fn) in ({('core', 'request', 'destination')}, {('core', 'request')})
-                                run.ob('C02.b', 'the substitution loop of R_::%s applies the outstanding request' % root_name, ok, where=x.get('l'), detail=ir.pp(a),
-                                       key='the substitution loop reached from R_::%s applies something other than the outstanding request' % root_name)
 
 
 def immediate(run, F, E):
@@ -115,39 +104,69 @@ def immediate(run, F, E):
 
 def drop_condition(run, F):
     """In the substitution loops a request may be dropped without being shown to any guard only if it is identical to the
-    transition accepted so far (origin, destination, method, payload presence, payload bytes). Decided by evaluating the loop's
-    own drop predicate -- the `if (applyRequest(...))` condition -- on the comparison domain of (accepted, outstanding)."""
+    transition accepted so far (origin, destination, method, payload presence, payload bytes). Decided by evaluating, on the
+    comparison domain of (accepted, outstanding), the loop's own branch conditions that control whether a guard round happens --
+    located through the CFG (the branches the guard call is control-dependent on), not through names or polarity."""
+    E = effects.Effects(F)
     sites = []
     for root_name in ('processRequest', 'initialEnter'):
         for root in F.find('R_', root_name):
-            for g, st in anchors.substitution_loops(F, effects.Effects(F) if not hasattr(F, '_E') else F._E, root):
+            for g, st in anchors.substitution_loops(F, E, root):
                 sites.append((root_name, g, st))
     seen_sites = set()
     for name, fn, loop_stmt in sites:
             if (fn.id, id(loop_stmt)) in seen_sites:
                 continue
             seen_sites.add((fn.id, id(loop_stmt)))
-            conds = []
-            for t in ir.walk_stmts(loop_stmt.get('body')):
-                if t.get('s') == 'if' and 'applyRequest' in ir.pp(t['c']):
-                    conds.append(t['c'])
-            if len(conds) != 1:
-                raise AnalysisBroken('%s: expected one `if (applyRequest(...))` in the substitution loop, found %d' % (fn.short, len(conds)))
-            cur_param = None
-            cur_decl = None
-            for p in fn.params:
-                if p['n'] == 'currentTransition':
-                    cur_param = p
-            if cur_param is None:
-                for s in ir.walk_stmts(fn.body):
-                    if s.get('s') == 'decl':
-                        for v in s['vars']:
-                            if v['n'] == 'currentTransition':
-                                cur_decl = v
-            cur_id = (cur_param or cur_decl or {}).get('id')
-            if cur_id is None:
-                raise AnalysisBroken('%s: currentTransition not found' % fn.short)
-            ty = (cur_param or cur_decl)['ty']
+            c = cfgmod.cfg_of(fn)
+
+            def reaches_guards(n):
+                if n.kind != 'call':
+                    return False
+                g, _ = anchors.call_target(F, E, fn, n)
+                names = set()
+                if n.e.get('pm'):
+                    for r in E.resolve_pm_all(fn, n.e):
+                        names.add(r.get('m'))
+                if g is not None:
+                    names.add(g.m)
+                    if g.tkey in anchors.ROOT_TKEYS:
+                        names |= set(h.m for h in E.calls_star(g).values())
+                return bool(names & {'cancelledByGuards', 'cancelledByEntryGuards', 'deepForwardEntryGuard', 'deepForwardExitGuard'})
+            gnodes = [n for n in c.events(('call',)) if reaches_guards(n) and c.in_loop(n)]
+            if len(gnodes) != 1:
+                raise AnalysisBroken('%s: %d guard-round call sites in the substitution loop' % (fn.short, len(gnodes)))
+            gnode = gnodes[0]
+            # the controlling decisions inside the loop body (the loop's own condition excluded), outermost first
+            ctrl = [b_ for b_ in c.control_deps_closure(gnode) if b_.e is not None and c.in_loop(b_)]
+            ctrl = [b_ for b_ in ctrl if not c._is_loop_condition(b_)]
+            ctrl.sort(key=lambda b_: sum(1 for o in ctrl if c.dominates(o, b_)))
+            if not ctrl:
+                raise AnalysisBroken('%s: the guard round is not conditional on anything in the loop body' % fn.short)
+            edges = []
+            for b_ in ctrl:
+                lab = None
+                for s2, l2 in b_.succ:
+                    if l2 in ('T', 'F') and (s2 is gnode or c.dominates(s2, gnode)):
+                        lab = l2
+                if lab is None:
+                    raise AnalysisBroken('%s: cannot tell which edge of `%s` leads to the guard round' % (fn.short, ir.pp(b_.e)[:60]))
+                edges.append((b_, lab == 'T'))
+            # the accepted-so-far transition: a Transition-typed variable handed to the guard round that is not (a copy of) the request
+            cur_var = None
+            for a in gnode.e.get('args', []):
+                x = ir.strip(a)
+                if x['k'] == 'var' and 'Transition' in (x.get('ty') or ''):
+                    src = [ws for ws in ir.all_exprs(fn) if ws['k'] == 'call' and (ws.get('op') == '=' or ws.get('m') == 'operator=') and ir.is_expr(ws.get('obj'))
+                           and ir.strip(ws['obj']).get('id') == x['id'] and ws.get('args') and E.lv(ws['args'][0], fn) == {('core', 'request')}]
+                    d = E.decls(fn).get(x['id'])
+                    from_req = bool(src) or (d is not None and d.get('init') is not None and E.lv(d['init'], fn) == {('core', 'request')})
+                    if not from_req and cur_var is None:
+                        cur_var = x
+            if cur_var is None:
+                raise AnalysisBroken('%s: the accepted transition handed to the guard round is not recognisable' % fn.short)
+            cur_id = cur_var['id']
+            ty = cur_var['ty']
             has_payload = 'TransitionT<void>' not in ty
             origins, dests, methods = [255, 3], [0, 7, 255], [0, 2]
             psets = [0, 1] if has_payload else [0]
@@ -166,8 +185,22 @@ def drop_condition(run, F):
                     req['payloadSet'], req['storage'] = rp, rs
                 this = Obj(_core=Obj(request=req, registry=Obj(requested=255, active=0)))
                 ev = Evaluator(F)
+                env = {cur_id: cur}
+                # named temporaries / cached references declared in the function (`auto& request = _core.request`)
+                for t in ir.walk_stmts(fn.body):
+                    if t.get('s') == 'decl':
+                        for v in t['vars']:
+                            if v.get('id') not in env and v.get('init') is not None and 'unknown_decl' not in v:
+                                try:
+                                    env[v['id']] = ev.ev(v['init'], fn, this, env, 0)
+                                except cmpdomain.NotPure:
+                                    pass
                 try:
-                    applied = ev.truth(ev.ev(conds[0], fn, this, {cur_id: cur}, 0))
+                    applied = True
+                    for b_, want in edges:
+                        if ev.truth(ev.ev(b_.e, fn, this, env, 0)) != want:
+                            applied = False
+                            break
                 except cmpdomain.NotPure as e:
                     raise AnalysisBroken('%s: the drop predicate is not a pure comparison: %s' % (fn.short, e))
                 cells += 1
